@@ -252,8 +252,13 @@ fn swap_cell(c: Cell) -> Cell {
 }
 
 fn bundle(b: &Board) -> Value {
+    // successors of every legal move: symmetry must also hold for what moves DO (rights, clocks, marks)
+    let succ: Vec<Value> = legal::gen_all(b)
+        .iter()
+        .filter_map(|m| catch(|| b.make_move(*m)).ok().and_then(|r| r.ok()).map(|nb| json!([mv_json(*m), raw_json(nb.raw())])))
+        .collect();
     json!({"pos": raw_json(b.raw()), "legal": mvs_json(&legal::gen_all(b)), "check": b.is_check(),
-           "outcome": outcome_json(&b.calc_outcome()), "has_legal": b.has_legal_moves()})
+           "outcome": outcome_json(&b.calc_outcome()), "has_legal": b.has_legal_moves(), "succ": succ})
 }
 
 pub fn sym_events(b: &Board) -> Vec<Value> {
